@@ -7,8 +7,7 @@ RULE = ('pairs by angle relation (parallel, antiparallel, nearly parallel within
         'meet vs dual(wedge(dual,dual)), Lagrange identity. non-trivial = owned op result differs from its operands')
 TRUSTED = TRUSTED_COMMON
 ASSUMPTIONS = ASSUME_COMMON + ['libm sin/cos enter as the model parameter L']
-S3_LEGS = ['wedge magnitude = |a||b||sin delta|, orientation half-turn by the sign of sin, swap = exactly 2 blades, dot^2 + wedge^2 = (|a||b|)^2: predicates wedge_value, wedge_swap, lagrange against mpmath',
-           'wedge of parallel operands is exactly 0: needs sin(+0) = +0 of libm; predicate mag_zero']
+S3_LEGS = ['wedge magnitude (C10_wedge_value), swap magnitude / orientation (C10_swap_*), Lagrange identity (C10_lagrange) are theorems under sin_acc / cos_acc; predicates wedge_value, wedge_swap, lagrange against mpmath decide every generated case', 'meet / geo results: structure by theorem, values by predicate only']
 
 def generate(rng, tier):
     n = 280 if tier == 'quick' else 8000
